@@ -66,6 +66,8 @@ class FunctionInfo:
         self.key = f"{module.name}:{self.qualname}"
         self.decorators = [ast.unparse(d) for d in node.decorator_list]
         self.is_property = 'property' in self.decorators
+        # functools.cached_property: computed on first access, then stored in the instance dictionary (later accesses read the stored value)
+        self.is_cached_property = any(d in ('functools.cached_property', 'cached_property') for d in self.decorators)
         self.is_classmethod = 'classmethod' in self.decorators
         self.is_static = 'staticmethod' in self.decorators
 
@@ -666,6 +668,10 @@ class Interp:
                     clo = self.make_closure(fi, [self.module_globals(fi.module)], fi.module)
                     if fi.is_property:
                         return self.call_closure(clo, [obj], {})
+                    if fi.is_cached_property:
+                        v = self.call_closure(clo, [obj], {})
+                        obj.fields[name] = v
+                        return v
                     if fi.is_classmethod:
                         return BoundMethod(ClassRef(obj.cls), clo)
                     if fi.is_static:
